@@ -62,6 +62,7 @@ struct SchemaGen {
 	bool string_defaults_hostile = false;
 	bool decl_comments = false;  // some declarations carry an annotation (cfg_opt_t.comment)
 	bool simple = false;         // some scalar options are bound to application variables (CFG_SIMPLE_*)
+	bool deprecated = false;     // some value options are CFGF_DEPRECATED, half of those also CFGF_DROP
 	bool root_name = true;       // now and then a section is called "root", like the top-level context itself
 };
 
